@@ -40,6 +40,10 @@ def make_lists(ctx, rnd):
                 bad = True
         if len({m.cpp for m in members}) < 2:
             bad = True
+        # a generated unit identical to the base unit (size 1, origin 0) ties with au::Kelvins, which
+        # always takes part through the units the origins are expressed in
+        if any(m.defs and m.m == 1 and m.o == 0 for m in members):
+            bad = True
         if not bad:
             lists.append(members)
     return lib, lists
@@ -109,8 +113,9 @@ def body(ctx):
                                   % (m.cpp, ", ".join(ts), off, m.o, oC, mC), "\n".join(repr(x) for x in members))
                 else:
                     ndis += 1
-                if ok_all:
-                    # cross-check against the library's own conversion and origin_displacement (constant expressions)
+                if ok_all and abs(int(ratio) * 7 + int(off)) < 2 ** 40 and 1 / mC < 2 ** 20:
+                    # cross-check against the library's own conversion and origin_displacement (constant
+                    # expressions; only where every intermediate certainly fits long long)
                     for x in (0, 1, 7):
                         lines.append("static_assert(au::make_quantity_point<%s>(%dLL).coerce_in<long long>(C{}) == %dLL, \"conversion to the common point unit is x*%d + %d\");"
                                      % (m.cpp, x, int(ratio) * x + int(off), int(ratio), int(off)))
